@@ -300,11 +300,22 @@ def ch_correspond(chk, impl, model, n):
             b2, st2 = ch_case(impl, model, small)
             if b2 is None:
                 small, b2 = ops, bad
+            # Is the property itself violated on this input?  The implementation's own allocator trace is judged by the
+            # verified monitor: rejected = a concrete failing input; accepted = only the tie (model = code) is broken.
+            lines = ['0 init', '0 ch_new 0'] + ['0 ch_' + o for o in small] + ['0 finish']
+            rc_i, out_i, err_i = run_script(impl, lines)
+            tr_i = parse(out_i)[0].get(0, [])
+            verdict = monitor(model, [';'.join(e[0] for e in tr_i)])[0] if tr_i else 'REJECT 0'
+            concrete = status == 'crash' or rc_i != 0 or verdict.startswith('REJECT')
             chk.finding('codeholder-%s:%s' % (status, str(b2[1]).split()[0]),
-                        dict(ops=small, at=b2[0], op=b2[1], implementation=b2[2], model=b2[3],
+                        dict(ops=small, at=b2[0], op=b2[1], implementation=b2[2], model=b2[3], monitor_on_implementation_trace=verdict,
                              how='ops are run by harness/c17_alloc.c (ch_* commands on _MIR_publish_code & co.) and by the Coq model chstep'),
-                        'code holders (mir.c) and their verified model disagree at op %s: implementation %s, model %s' % (
-                            b2[1], json.dumps(b2[2])[:200], json.dumps(b2[3])[:200]))
+                        'code holders (mir.c) and their verified model disagree at op %s: implementation %s, model %s; %s' % (
+                            b2[1], json.dumps(b2[2])[:200], json.dumps(b2[3])[:200],
+                            'the contract monitor REJECTS the implementation trace' if concrete else
+                            'the contract monitor accepts the implementation trace: only the correspondence chstep = mir.c '
+                            '(theorem code_holder_traces_accepted) no longer checks'),
+                        no_input=not concrete)
     return nbad
 
 
